@@ -75,8 +75,10 @@ type RunReq struct {
 	Faults   []Fault        `json:"faults,omitempty"`
 	Universe bool           `json:"universe,omitempty"` // load only and report the universe (C13)
 	UniAll   bool           `json:"uni_all,omitempty"`  // report every package, not only module ones
-	ReadSum  bool           `json:"read_sum,omitempty"` // report sumfile.Load(root) after the run
-	NoEvents bool           `json:"no_events,omitempty"`
+	// UniMethodsFirst: ask MethodsOf before any other accessor of a package (answers must not depend on the order of questions)
+	UniMethodsFirst bool `json:"uni_methods_first,omitempty"`
+	ReadSum         bool `json:"read_sum,omitempty"` // report sumfile.Load(root) after the run
+	NoEvents        bool `json:"no_events,omitempty"`
 }
 
 // Event is one entry of the trace.
